@@ -67,6 +67,16 @@ CLAIMED = {
              "obligation was exercised. Sampling, not proof, off the palette.",
         note="TLC exact arithmetic; RefEval (numpy) for series/Rodrigues values; tolerances as in the property (5e-6 for "
              "laws touched by the cut-off, relative to max(1,|v|,|p|); 1e-9 relative for algebraic laws)"),
+    "C04": dict(
+        level="model_checking", design="3/C04",
+        technique="TLA+ specs QSE3.tla/GroupLaws.tla: TLC checks associativity, inverse, composition=matrix product and "
+                  "the localToGlobal/globalToLocal pair exactly on a palette and exports exact pair/triple results that "
+                  "real tm objects must reproduce; constructor forms fed with harness-derived equivalent descriptions of "
+                  "each palette pose; random float triples as law traces decided by TLC (LawTrace.tla)",
+        text="TLC's exact matrices are the oracle for @, inv, (a@b)@c, a@(b@c), localToGlobal, globalToLocal and every "
+             "documented constructor form on the palette; the same laws on random float triples are thresholded and "
+             "coverage-checked by TLC. Exhaustive on the palette, sampled off it.",
+        note="TLC exact arithmetic; harness derives rotation vector / quaternion / Rx*Ry*Rz angles independently"),
 }
 
 NOT_YET = "check not built yet in this round (planned: see DESIGN.md section 3)"
